@@ -293,7 +293,7 @@ class EventGraph:
                     tg.append(block_first(s) if s is not None else [])
                 self.branch[(b['id'], len(b['elems']) - 1)] = {
                     'cond': b.get('cond', -1), 'termk': b.get('termk'), 'term': b.get('term', -1),
-                    'targets': tg, 'tempdtor': bool(b.get('tempdtor_branch'))}
+                    'targets': tg, 'tempdtor': bool(b.get('tempdtor_branch')), 'succ_blocks': [dec(s_) for s_ in b['succs']]}
         self.succ[self.ENTRY] = block_first(self.entry_block)
         self.succ.setdefault(self.NEXIT, [])
         self.succ.setdefault(self.XEXIT, [])
